@@ -287,8 +287,16 @@ def typingImportLines (π : List String) : List String :=
   if π.isEmpty then [] else
   ["", "from typing import ("] ++ (sortBy id strLe π).map (fun s => "    " ++ s ++ ",") ++ [")"]
 
-/-- `for to_import in self.import_tracker.cur_namespace_adhoc_imports: self.emit(to_import)` -- NOT sorted -/
+/-- the code today: `if self.import_tracker.cur_namespace_adhoc_imports: self.emit(""); for to_import in
+sorted(self.import_tracker.cur_namespace_adhoc_imports): self.emit(to_import)` -- the registered statements
+(`import datetime`, `from <package> import <namespace>` for a namespace the regular import block does not cover), sorted -/
 def adhocImportLines (π : List String) : List String :=
+  if π.isEmpty then [] else "" :: sortBy id strLe π
+
+/-- the loop as it was before the stub repair (`for to_import in self.import_tracker.cur_namespace_adhoc_imports`):
+NOT sorted, the lines followed the set. It was harmless only as long as one literal was ever registered; kept as the
+regression model (`adhoc_unsorted_order_dependent`). -/
+def adhocImportLinesUnsorted (π : List String) : List String :=
   if π.isEmpty then [] else "" :: π
 
 /-! ## State that survives a run (class attributes) -/
@@ -328,8 +336,8 @@ def trackerRunLate : List String → List (List String × Bool) → List (List S
 
 /-- unsorted iteration sites for which a model and a theorem exist (file, function, ordinal, kind) -/
 def modelledSites : List (String × String × Nat × String) := [
-  -- adhoc imports: emitted in set order; at most one distinct literal is ever registered (`adhoc_order_free`)
-  ("stone/backends/python_type_stubs.py", "PythonTypeStubsBackend._generate_imports_needed_for_typing", 0, "for"),
+  -- (the loop over the stub's ad-hoc imports is gone from this list: the statements are sorted now, see
+  --  `modelledSortSites`; iterating the set unsorted again would be an unmodelled site)
   -- `_generate_custom_annotation_processors`: #1 introduces an order (`procsOf`), #0 #2 #3 pass on the order of
   -- the recursive activation (`inner`); (the comprehension over the set difference -- formerly #4 -- is sorted now:
   --  `remaining`, see `modelledSortSites`)
@@ -381,7 +389,9 @@ def modelledSortSites : List ((String × String × Nat × String) × KeyClass) :
   (("stone/backends/obj_c.py", "ObjCBaseBackend._get_imports_h", 0, "list-sort:"), .strings),
   (("stone/backends/obj_c.py", "ObjCBaseBackend._get_imports_m", 0, "list-sort:"), .strings),
   (("stone/backends/obj_c_types.py", "ObjCTypesBackend.generate", 0, ""), .strings),
+  -- #0 `from typing import (..)` (`typingImportLines`), #1 the ad-hoc import statements (`adhocImportLines`)
   (("stone/backends/python_type_stubs.py", "PythonTypeStubsBackend._generate_imports_needed_for_typing", 0, ""), .strings),
+  (("stone/backends/python_type_stubs.py", "PythonTypeStubsBackend._generate_imports_needed_for_typing", 1, ""), .strings),
   -- `remaining_annotations` (`remaining`)
   (("stone/backends/python_types.py", "PythonTypesBackend._generate_custom_annotation_processors", 0,
     "lambda annotation: (annotation.namespace.name, annotation.name) [over annotation]"), .annNsName),
